@@ -374,7 +374,8 @@ func compact(r *proto.Record) *proto.Record {
 		c.Run.First = 0
 	}
 	if c.Run.Scripted {
-		c.Run.Policy = proto.PolicyRec{Kind: "script (was " + c.Run.Policy.Kind + ")"}
+		// the seed also drives the program's own choices (select, GOMAXPROCS knob): keep it
+		c.Run.Policy = proto.PolicyRec{Kind: "script (was " + c.Run.Policy.Kind + ")", Seed: c.Run.Policy.Seed}
 	}
 	return c
 }
